@@ -116,7 +116,7 @@ def cases(c):
                     for s in (seqs if n == 1 else seqs[::4]):
                         out.append({'cls': cls, 'start': start, 'ops': [list(ops[i]) for i in s], 'exhaustive': n,
                                     'fresh': True})
-        for i in range(25 if c.tier == 'quick' else 10000):
+        for i in range(25 if c.tier == 'quick' else 20000):
             L = int(rng.integers(4, 13))
             seq = [list(ops[int(rng.integers(0, len(ops)))]) for _ in range(L)]
             out.append({'cls': cls, 'start': gen.pick(rng, ['A', 'C']), 'ops': seq, 'fresh': bool(i % 3 == 0), 'i': i})
